@@ -54,6 +54,7 @@ def run_case(case, reports=False, keep_objects=False):
 
     prog, flat, cfg = case["prog"], case["flat"], case["cfg"]
     faults = [x for x in case.get("fault", [0, 0]) if x]
+    skips = [list(x) for x in (prog.get("skips") or [])]
     fault_kind = case.get("fault_kind", "exc")
     R = Rendered(prog, flat)
     elems = flat["elems"]
@@ -107,6 +108,8 @@ def run_case(case, reports=False, keep_objects=False):
 
             def _e(self, cb, **kw):
                 p = {"out_real": sys.stdout is REAL_OUT, "err_real": sys.stderr is REAL_ERR}
+                if kw.get("el"):
+                    p["att"] = attempts.get(kw["el"], 1) if elems[kw["el"] - 1]["kind"] == "scenario" else 0
                 events.append(_ev("fmt", name=cb, **dict(kw, **p)))
 
             def uri(self, u): self._e("uri")
@@ -224,7 +227,18 @@ def run_case(case, reports=False, keep_objects=False):
             kinds = (ValueError, KeyError, RuntimeError, TypeError, LookupError)
             raise kinds[int(text) % len(kinds)]("bad argument %s" % text)
 
-        reg.steps["step"].append(ParseMatcher(lambda ctx, org, k: realise(ctx, org, k), "{org:w} {k:d}", "step"))
+        if cfg.get("async_steps"):
+            # the same step functions as coroutines (behave.api.async_step): outcome, status and order must not differ
+            from behave.api.async_step import async_run_until_complete
+
+            @async_run_until_complete
+            async def realise_async(ctx, org, k):
+                import asyncio
+                await asyncio.sleep(0)
+                realise(ctx, org, k)
+            reg.steps["step"].append(ParseMatcher(realise_async, "{org:w} {k:d}", "step"))
+        else:
+            reg.steps["step"].append(ParseMatcher(lambda ctx, org, k: realise(ctx, org, k), "{org:w} {k:d}", "step"))
         reg.steps["step"].append(ParseMatcher(lambda ctx, x, sid, pos: sub_impl(ctx, x, sid, pos), "sub {x:w} {sid:d} {pos:d}", "step"))
         reg.steps["step"].append(ParseMatcher(lambda ctx, org, k: realise(ctx, org, k), "bad {org:w} {k:Bad}", "step",
                                               custom_types={"Bad": conv_bad}))
@@ -288,6 +302,8 @@ def run_case(case, reports=False, keep_objects=False):
                     ctx.ra = el
                 elif nm == "before_scenario":
                     ctx.sa = el
+                if [nm, el] in skips:
+                    a[0].skip("excluded by %s hook" % nm)       # the hook excludes its element at run time
                 if cfg.get("observe") and nm in ("after_scenario", "after_step", "before_scenario"):
                     # an observing hook: reads the status of the running feature (must not change any result)
                     getattr(ctx.feature, "status", None)
